@@ -617,3 +617,168 @@ func bigBlock(t *template, nTx, nOuts, nColl, firstK int) *xcbor.Node {
 	}
 	return assemble(t, txs, nil)
 }
+
+// ---- components of exact encoded size -----------------------------------------------------
+//
+// Special sizes (23/24, 255/256, 65535/65536 bytes: the CBOR head-width and
+// uint8/uint16 boundaries) for a transaction body, witness set or auxiliary
+// data item. A "bulk knob" (a byte string somewhere inside the component that
+// the era decoder accepts at any length) is sized so that the encoding of the
+// whole component has exactly the wanted length.
+
+func headLen(l int) int {
+	switch {
+	case l < 24:
+		return 1
+	case l < 256:
+		return 2
+	case l < 65536:
+		return 3
+	}
+	return 5
+}
+
+// padBytes returns a byte-string node whose encoding is exactly enc bytes
+// (enc >= 1); where the minimal head would jump over enc, the head is one
+// step wider than minimal.
+func padBytes(enc int, fill byte) *xcbor.Node {
+	mk := func(l, width int) *xcbor.Node {
+		b := make([]byte, l)
+		for i := range b {
+			b[i] = fill + byte(i*13)
+		}
+		n := xcbor.B(b)
+		if width > n.Width {
+			n.Width = width
+		}
+		return n
+	}
+	for _, h := range []int{1, 2, 3, 5} {
+		if l := enc - h; l >= 0 && headLen(l) == h {
+			return mk(l, 0)
+		}
+	}
+	// gap: use the next wider head for the largest payload that fits
+	for _, hw := range [][2]int{{2, 1}, {3, 2}, {5, 4}, {9, 8}} {
+		if l := enc - hw[0]; l >= 0 && headLen(l) < hw[0] {
+			return mk(l, hw[1])
+		}
+	}
+	panic(fmt.Sprintf("padBytes(%d)", enc))
+}
+
+// fitExact sizes the pad so that build(pad) encodes to exactly target bytes.
+func fitExact(target int, build func(pad *xcbor.Node) *xcbor.Node) *xcbor.Node {
+	base := len(build(padBytes(1, 0)).Encode()) - 1
+	guess := target - base
+	for e := guess + 2; e >= guess-14 && e >= 1; e-- {
+		if n := build(padBytes(e, byte(target))); len(n.Encode()) == target {
+			return n
+		}
+	}
+	return nil
+}
+
+// sizedTx returns a transaction of the template's era whose body / witness set
+// / auxiliary data ("body", "witness", "aux") encodes to exactly size bytes, or
+// nil when the era offers no knob for it.
+func sizedTx(t *template, which string, size int) *poolTx {
+	if len(t.Pool) == 0 {
+		return nil
+	}
+	lay := layoutOf(t.Type)
+	p := t.Pool[0]
+	tx := poolTx{Body: p.Body.Clone(), Wit: p.Wit.Clone()}
+	if p.Aux != nil {
+		tx.Aux = p.Aux.Clone()
+	}
+	switch which {
+	case "aux":
+		if lay == layByron {
+			return nil
+		}
+		tx.Aux = fitExact(size, func(pad *xcbor.Node) *xcbor.Node { return xcbor.M(xcbor.U(674), pad) })
+		if tx.Aux == nil {
+			return nil
+		}
+	case "witness":
+		if lay == layByron {
+			// one witness [0, #6.24(bytes)] whose byte string is the knob
+			tx.Wit = fitExact(size, func(pad *xcbor.Node) *xcbor.Node {
+				return xcbor.AI(xcbor.A(xcbor.U(0), xcbor.Tg(24, pad)))
+			})
+		} else {
+			_, plutus, _ := eraWitnessKeys(t.Type)
+			if len(plutus) == 0 {
+				return nil
+			}
+			tx.Wit = fitExact(size, func(pad *xcbor.Node) *xcbor.Node { return xcbor.M(xcbor.U(plutus[0]), xcbor.A(pad)) })
+		}
+		if tx.Wit == nil {
+			return nil
+		}
+	case "body":
+		var body *xcbor.Node
+		switch {
+		case lay == layByron:
+			// attributes map of the tx carries the knob
+			src := p.Body
+			body = fitExact(size, func(pad *xcbor.Node) *xcbor.Node {
+				b := src.Clone()
+				b.Items[2] = xcbor.M(xcbor.U(9), pad)
+				return b
+			})
+			if body == nil { // too small for the real inputs/outputs: empty lists
+				body = fitExact(size, func(pad *xcbor.Node) *xcbor.Node {
+					return xcbor.A(xcbor.AI(), xcbor.AI(), xcbor.M(xcbor.U(9), pad))
+				})
+			}
+		case t.Type >= fixtures.TypeBabbage:
+			// an extra map-form output with a script reference
+			// #6.24(bytes .cbor [1, plutus_v1_script]) carries the knob
+			mkOut := func(pad *xcbor.Node) *xcbor.Node {
+				inner := xcbor.A(xcbor.U(1), pad).Encode()
+				addr := make([]byte, 29)
+				addr[0] = 0x61
+				return xcbor.M(xcbor.U(0), xcbor.B(addr), xcbor.U(1), xcbor.U(1000000), xcbor.U(3), xcbor.Tg(24, xcbor.B(inner)))
+			}
+			src := p.Body
+			body = fitExact(size, func(pad *xcbor.Node) *xcbor.Node {
+				b := src.Clone()
+				outs := b.MapGet(1)
+				outs.Items = append(outs.Items, mkOut(pad))
+				if !outs.Indef {
+					outs.Width = 0
+				}
+				return b
+			})
+			if body == nil {
+				body = fitExact(size, func(pad *xcbor.Node) *xcbor.Node {
+					return xcbor.M(xcbor.U(0), xcbor.A(), xcbor.U(1), xcbor.A(mkOut(pad)), xcbor.U(2), xcbor.U(0))
+				})
+			}
+		}
+		if body == nil {
+			return nil
+		}
+		tx.Body = body
+	}
+	return &tx
+}
+
+// sizedBlock: two ordinary transactions around one with a component of exact size.
+func sizedBlock(t *template, which string, size int) *xcbor.Node {
+	stx := sizedTx(t, which, size)
+	if stx == nil {
+		return nil
+	}
+	mk := func(i int) poolTx {
+		p := t.Pool[i%len(t.Pool)]
+		tx := poolTx{Body: p.Body.Clone(), Wit: p.Wit.Clone()}
+		if p.Aux != nil {
+			tx.Aux = p.Aux.Clone()
+		}
+		return tx
+	}
+	return assemble(t, []poolTx{mk(0), *stx, mk(1)}, nil)
+}
